@@ -57,6 +57,7 @@ func Uses() []*Use {
 			cb.DefineVarStart(token.NoPos, "x")
 			b.Build(e)
 			cb.EndInit(1)
+			b.Decl("x")
 			blankUse(b, "x")
 		},
 	})
@@ -68,6 +69,7 @@ func Uses() []*Use {
 			cb.NewVarStart(nil, "x")
 			b.Build(e)
 			cb.EndInit(1)
+			b.Decl("x")
 			blankUse(b, "x")
 		},
 	})
@@ -221,6 +223,7 @@ func Uses() []*Use {
 			cb.ForRange("k")
 			b.Build(e)
 			cb.RangeAssignThen(token.NoPos)
+			b.Decl("k")
 			blankUse(b, "k")
 			cb.End()
 		},
@@ -233,6 +236,7 @@ func Uses() []*Use {
 			cb.ForRange("k", "v")
 			b.Build(e)
 			cb.RangeAssignThen(token.NoPos)
+			b.Decl("k", "v")
 			blankUse(b, "k")
 			blankUse(b, "v")
 			cb.End()
@@ -258,6 +262,7 @@ func Uses() []*Use {
 			cb.NewConstStart(nil, "c")
 			b.Build(e)
 			cb.EndInit(1)
+			b.Decl("c")
 			blankUse(b, "c")
 		},
 	})
@@ -310,6 +315,7 @@ func Uses() []*Use {
 			cb.DefineVarStart(token.NoPos, "x", "y")
 			b.Build(e)
 			cb.EndInit(1)
+			b.Decl("x", "y")
 			cb.VarRef(nil).VarRef(nil).VarVal("x").VarVal("y").Assign(2).EndStmt()
 		},
 	})
@@ -344,6 +350,7 @@ type Run struct {
 	Errs     []string
 	Accepted bool
 	Recs     map[*E]Rec
+	Decls    map[string]types.Type
 	Texts    map[string]string
 	WriteErr string
 	Emitted  *oracle.Checked // nil unless accepted and written
@@ -394,6 +401,7 @@ func Exec(imp *fixture.Importer, e *E, u *Use, opt gx.Options, wantRef bool) *Ru
 	r.Errs = b.Errs
 	if eb != nil {
 		r.Recs = eb.Recs
+		r.Decls = eb.Decls
 	}
 	r.Accepted = b.Accepted(r.Outcome)
 	if r.Accepted {
@@ -448,4 +456,30 @@ func sameConst(a, b constant.Value) bool {
 		return constant.Compare(a, token.EQL, b)
 	}
 	return true
+}
+
+// Own evaluates an expression text on its own (no context conversion) in a package that
+// imports env (and unsafe): go/types' own type and constant value of the expression —
+// untyped stays untyped.
+type Own struct {
+	fset *token.FileSet
+	pkg  *types.Package
+	pos  token.Pos
+}
+
+func NewOwn(imp *fixture.Importer) *Own {
+	src := "package p\n\nimport (\n\t\"env\"\n\t\"unsafe\"\n)\n\nvar _ unsafe.Pointer\n\nfunc g() {\n\t_ = env.VInt\n}\n"
+	c := oracle.CheckSrc(src, imp, gx.PkgPath)
+	if !c.OK() {
+		panic("ex.NewOwn: " + c.ErrString())
+	}
+	var pos token.Pos
+	for _, f := range c.Files {
+		pos = f.End() - 3
+	}
+	return &Own{c.Fset, c.Pkg, pos}
+}
+
+func (o *Own) Eval(text string) (types.TypeAndValue, error) {
+	return types.Eval(o.fset, o.pkg, o.pos, text)
 }
